@@ -211,6 +211,11 @@ def PMap.pushAll : PMap → List (List Nat × List Nat) → PMap
   | m, [] => m
   | m, (k, v) :: rest => PMap.pushAll (m.push k v) rest
 
+/-- `impl FromIterator<(K, V)> for ParamsMap`: `insert` for every pair in order (a repeated key is grouped with
+its first occurrence wherever it repeats; every value is decoded once) -/
+def PMap.collect (pairs : List (List Nat × List Nat)) : PMap :=
+  pairs.foldl (fun m kv => m.insert kv.1 kv.2) []
+
 def PMap.getAll (m : PMap) (k : List Nat) : Option (List (List Nat)) :=
   match m with
   | [] => none
